@@ -36,6 +36,7 @@ type vfdCase struct {
 	Validate bool   `json:"validate"`
 	Max      int    `json:"max"`
 	Dsz      int    `json:"dsz"`
+	Fetch    string `json:"fetch"`
 }
 
 type vfdSched struct {
@@ -46,14 +47,31 @@ type vfdSched struct {
 }
 
 type vfdS3 struct {
-	obj  []byte
-	gets int
+	obj   []byte
+	flaky []byte // when set: the first GetObject delivers these bytes and then fails with a non-EOF read error
+	gets  int
 }
+
+// vfdFlakyBody delivers its bytes and then a connection-reset style error instead of io.EOF.
+type vfdFlakyBody struct{ r *bytes.Reader }
+
+func (b *vfdFlakyBody) Read(p []byte) (int, error) {
+	n, err := b.r.Read(p)
+	if err == io.EOF {
+		return n, errors.New("verif fake s3: read tcp: connection reset by peer")
+	}
+	return n, err
+}
+func (b *vfdFlakyBody) Close() error { return nil }
 
 var errVfdUnused = errors.New("verif fake s3: operation not expected on the download path")
 
 func (f *vfdS3) GetObject(ctx context.Context, in *s3.GetObjectInput, _ ...func(*s3.Options)) (*s3.GetObjectOutput, error) {
 	f.gets++
+	if f.flaky != nil && f.gets == 1 {
+		n := int64(len(f.obj))
+		return &s3.GetObjectOutput{Body: &vfdFlakyBody{r: bytes.NewReader(f.flaky)}, ContentLength: &n}, nil
+	}
 	n := int64(len(f.obj))
 	return &s3.GetObjectOutput{Body: io.NopCloser(bytes.NewReader(f.obj)), ContentLength: &n}, nil
 }
@@ -168,6 +186,15 @@ func TestVerifLfsDownload(t *testing.T) {
 				t.Fatalf("unexpected entry %q", c.Entry)
 			}
 			fs3 := &vfdS3{obj: cont[c.Stored]}
+			switch c.Fetch {
+			case "flaky_orig":
+				fs3.flaky = cont["orig"][:s.Unit]
+			case "flaky_foreign":
+				fs3.flaky = cont["junk"][:s.Unit]
+			case "clean", "":
+			default:
+				t.Fatalf("unknown fetch behaviour %q", c.Fetch)
+			}
 			m := &lfsModule{
 				logger:           logger,
 				s3Uploader:       &s3Uploader{bucket: "verif-bucket", region: "us-east-1", chunkSize: 5 << 20, api: fs3},
@@ -196,12 +223,15 @@ func TestVerifLfsDownload(t *testing.T) {
 			got := rr.Body.Bytes()
 			stored := cont[c.Stored]
 			// bytes were sent to the client: a success status, or the object's bytes inside any other response
-			ret := rr.Code == http.StatusOK || (len(stored) > 0 && bytes.Contains(got, stored))
+			ret := rr.Code == http.StatusOK || (len(stored) > 0 && bytes.Contains(got, stored)) || (len(fs3.flaky) >= 16 && bytes.Contains(got, fs3.flaky))
 			o := map[string]any{"ret": ret, "blob": "none", "status": rr.Code, "bsize": 0, "bhash": map[string]string{"sha256": "", "md5": "", "crc32": ""}, "gets": fs3.gets}
 			if ret {
 				sent := got
 				if rr.Code != http.StatusOK {
 					sent = stored
+					if !(len(stored) > 0 && bytes.Contains(got, stored)) {
+						sent = fs3.flaky
+					}
 				}
 				o["blob"], o["bsize"], o["bhash"] = vfdIdentify(cont, sent), len(sent), vfdHashes(sent)
 			}
